@@ -89,7 +89,7 @@ func runC27(c *Ctx) {
 	}
 	aw, bw := gen("a"), gen("b")
 	flip := ch.Bool(20, "flip")
-	w := c.NewWorld(simrt.Config{LockYield: ch.Bool(40, "lockyield"), PreemptPct: 10 + 20*ch.Pick(3, "preempt")})
+	w := c.NewWorld(simrt.Config{LockYield: ch.Bool(40, "lockyield"), UnlockYield: ch.Bool(25, "unlockyield"), PreemptPct: 10 + 20*ch.Pick(3, "preempt")})
 	l := simnet.NewLink("f")
 	l.Frag = ch.Bool(50, "frag")
 	var atot, btot int
